@@ -159,7 +159,16 @@ class C17(Check):
                         t.parse_sync_managers(t.eeprom[41])
                     sim.eeprom = case["img"]
                     t.position = 1005
-                await asyncio.wait_for(t.read_eeprom(), 120)
+                if case["seed"] % 3 == 1 and not case.get("twice"):
+                    # ANOTHER terminal of the same master reads its (different) EEPROM at the same time
+                    other = build_image((2, 0x4321, 9, 55), [(41, enc_sms([(0x1000, 64, 0x26, 1), (0x1080, 64, 0x22, 2), (0x1100, 2, 0x24, 3), (0x1180, 10, 0x20, 4)])),
+                                                            (0x8002, bytes(range(40, 72)))])
+                    sim2.eeprom = other
+                    t2 = Terminal(ec)
+                    t2.position = 1006
+                    await asyncio.wait_for(asyncio.gather(t.read_eeprom(), t2.read_eeprom()), 120)
+                else:
+                    await asyncio.wait_for(t.read_eeprom(), 120)
                 idn = [t.vendorId, t.productCode, t.revisionNo, t.serialNo]
                 d = [[k, v] for k, v in t.eeprom.items()]
                 if 41 in t.eeprom:
@@ -281,7 +290,7 @@ class C17(Check):
     def rule(self):
         return ("random SII images: 0-7 categories with distinct standard and vendor-specific types (bit 15 set, some equal to a standard type but for that bit; 10% with a duplicate), random even lengths and contents, sync-manager categories "
                 "with random entries/control bytes, PDO categories with bit/byte/gap entries (85% byte-aligned), random identity, garbage after the end marker, "
-                "5% truncated images; 4- and 8-byte EEPROM reads; busy for 0-3 polls; 30%: the Terminal object decoded another (full) image before; non-trivial = at least two categories decoded")
+                "5% truncated images; 4- and 8-byte EEPROM reads; busy for 0-3 polls; 30%: the Terminal object decoded another (full) image before (half of them at another station address); a third of the rest: another terminal of the same master reads its own EEPROM at the same time; non-trivial = at least two categories decoded")
 
     def distribution(self, cases, observed):
         d = {"mode8": 0, "mode4": 0, "busy": 0, "errors": 0, "categories": 0}
